@@ -29,6 +29,7 @@ from .architecture_features import Accelerator
 from .architecture_features import ArchitectureFeatures
 from .data_type import DataType
 from .errors import UnsupportedFeatureError
+from .errors import VelaError
 from .numeric_util import round_up
 from .operation import NpuBlockType
 from .operation import Op
@@ -171,6 +172,10 @@ def encode_weights(
 
     # Checks for weight layout
     assert len(weights_volume.shape) == 4, "weights ndarray should have a shape of 4"
+
+    # The codec encodes signed 9-bit weights, anything else must be rejected instead of being wrapped
+    if weights_volume.size > 0 and (weights_volume.min() < -255 or weights_volume.max() > 255):
+        raise VelaError("encode_weights :: weight value out of range, the valid range is -255..255")
 
     # It cannot be both partkernel and depthwise
     assert not (
